@@ -22,6 +22,7 @@ import Pyxv.Model.OpsC17
 import Pyxv.Model.OpsControls
 import Pyxv.Model.OpsConvert
 import Pyxv.Model.FormFlat
+import Pyxv.Model.FormFlatInst
 /-!
 Driver: one JSON request per line on stdin, one JSON reply per line on stdout.
 `{"op": "<name>", …}` → `{"ok": true, "v": …}` | `{"ok": false, "err": "…"}`.
@@ -29,7 +30,7 @@ Driver: one JSON request per line on stdin, one JSON reply per line on stdout.
 open Lean Pyxv
 
 def handlers : List (String → Json → Option (Except String Json)) :=
-  [Xml.opsXml, Form.opsForm, Validator.opsValidator, Chan.opsChannel, Texts.opsTexts, Process.opsProcess, Binds.opsBinds, Choices.opsChoices, Entities.opsEntities, Settings.opsSettings, Refs.opsRefs, Warn.opsWarn, Lexer.opsLexer, Defaults.opsDefaults, Backends.opsBackends, Itext.opsItext, JV.opsJVal, ToJson.opsToJson, Asm.opsAsm, Spell.opsSpell, Rows17.opsC17, Controls.opsControls, Convert.opsConvert, FormFlat.opsFlat]
+  [Xml.opsXml, Form.opsForm, Validator.opsValidator, Chan.opsChannel, Texts.opsTexts, Process.opsProcess, Binds.opsBinds, Choices.opsChoices, Entities.opsEntities, Settings.opsSettings, Refs.opsRefs, Warn.opsWarn, Lexer.opsLexer, Defaults.opsDefaults, Backends.opsBackends, Itext.opsItext, JV.opsJVal, ToJson.opsToJson, Asm.opsAsm, Spell.opsSpell, Rows17.opsC17, Controls.opsControls, Convert.opsConvert, FormFlat.opsFlat, FormFlat.opsFlatW]
 
 def dispatch (op : String) (j : Json) : Except String Json :=
   let rec go : List (String → Json → Option (Except String Json)) → Except String Json
